@@ -143,8 +143,11 @@ class GroupAdditivityScheme(Scheme):
         self._AssignCenterPattern(mol, debug)
         groups = self._AssignGroup(mol)
         descriptors = self._AssignDescriptor(mol, clean_mol)
+        # groups and descriptors share one name space (the library keys): a
+        # descriptor that carries the name of a group adds to its count
         all_descriptors = groups.copy()
-        all_descriptors.update(descriptors)
+        for name in descriptors:
+            all_descriptors[name] += descriptors[name]
         return all_descriptors
 
     def _AssignCenterPattern(self, mol, debug=0):
